@@ -8,6 +8,8 @@ DEFAULT_WISHLIST_INTERVAL: int = 600
 DEFAULT_READ_TIMEOUT: float = 60
 PEER_CONNECT_TIMEOUT: float = 10
 """Direct connection timeout"""
+PEER_ADDRESS_TIMEOUT: float = 10
+"""Timeout waiting for the server to return the address of a peer"""
 PEER_INDIRECT_CONNECT_TIMEOUT: float = 60
 """Indirect connection timeout"""
 PEER_INIT_TIMEOUT: float = 5
